@@ -115,6 +115,16 @@ def entry_parts(entry):
     return s, p
 
 
+def entry_str_e(entry):
+    s, _p = entry_parts(entry)
+    return s.e if s is not None else z3.Const("nostr", sv.StrS)
+
+
+def entry_pay_e(entry):
+    _s, p = entry_parts(entry)
+    return p.e if p is not None else z3.Const("nopay", sv.RealS)
+
+
 FILEPAY = z3.Function("filepay", sv.StrS, sv.RealS)  # magnitude stored in a spill file
 
 
@@ -160,3 +170,110 @@ def install(ex):
 
     ex.ext_models["numpy.may_share_memory"] = may_share
     ex.pure_ext.add("np.may_share_memory")
+
+
+# ---------------------------------------------------------------------------------------------
+# retention vocabulary (C08-C10)
+# ---------------------------------------------------------------------------------------------
+RETENTION_FIELDS = ["data", "_connected_inputs", "_total_mem", "$fexists"]
+
+
+def entry_eq(a, b):
+    return sv.value_eq(a, b)
+
+
+def suffix_of(d1, d0, tag="sx"):
+    """d1 is a suffix of d0 that keeps the newest entry (if any); stated in both index directions
+    (logically redundant, gives the solver a trigger on either list)"""
+    i = z3.Int(sv.uid(tag))
+    q = z3.Int(sv.uid(tag + "q"))
+    off = d0.n - d1.n
+    return And(d1.n <= d0.n, d1.n >= 0, Implies(d0.n >= 1, d1.n >= 1),
+               z3.ForAll([i], Implies(And(0 <= i, i < d1.n), entry_eq(d1.at(i), d0.at(i + off)))),
+               z3.ForAll([q], Implies(And(off <= q, q < d0.n), entry_eq(d0.at(q), d1.at(q - off)))))
+
+
+def fexists(ctx):
+    return ctx.get(WORLD, "$fexists")
+
+
+def fdata(ctx):
+    return ctx.get(WORLD, "$fdata")
+
+
+def val_in(ctx, entry):
+    """Val(F, entry) in the file store of ctx's heap"""
+    s, p = entry_parts(entry)
+    if s is None:
+        return p.e
+    fv = fdata(ctx).val(s.e).e
+    if p is None:
+        return fv
+    return If(entry_is_str(entry), fv, p.e)
+
+
+JOIN = z3.Function("os.path.join", sv.StrS, sv.StrS, sv.StrS)
+JOIN_INV = z3.Function("os.path.join#inv1", sv.StrS, sv.StrS)
+JOIN_DIR = z3.Function("os.path.join#dir", sv.StrS, sv.StrS)
+
+
+def schema2(reg):
+    f = reg.field
+    f("$fexists", TSet(Str))
+    f("$fdata", TDict(Str, Pay))
+    f("$is_static", Bool)
+    f("$needs_push", Bool)
+    f("$needs_pull", Bool)
+    f("$units", TOpt(TObj("units")))
+    f("$itime", TimeOpt)
+
+
+def install2(ex):
+    def np_save(ex, path, args, kwargs, node):
+        fn = ex.expect(args[0], sv.SStr, path, node)
+        mag = ex.expect(args[1], sv.SPay, path, node)
+        ctxs = ex
+        st = path.heap_get(ex, WORLD, "$fexists")
+        ns = sv.SSet(lambda k, st=st, fn=fn: Or(k == fn.e, st.dom(k)), None, st.kwrap)
+        ns.ksort = sv.StrS
+        path.heap_set(ex, WORLD, "$fexists", ns)
+        fd = path.heap_get(ex, WORLD, "$fdata")
+        path.heap_set(ex, WORLD, "$fdata", ex.dict_set(fd, fn, mag))
+        ex.note_write(path, WORLD, "$fexists", node)
+        ex.note_write(path, WORLD, "$fdata", node)
+        return sv.NONE
+
+    def np_load(ex, path, args, kwargs, node):
+        fn = ex.expect(args[0], sv.SStr, path, node)
+        st = path.heap_get(ex, WORLD, "$fexists")
+        ex.safe(path, "file-exists", st.dom(fn.e), node)
+        return path.heap_get(ex, WORLD, "$fdata").val(fn.e)
+
+    def os_remove(ex, path, args, kwargs, node):
+        fn = ex.expect(args[0], sv.SStr, path, node)
+        st = path.heap_get(ex, WORLD, "$fexists")
+        ex.safe(path, "file-exists", st.dom(fn.e), node)
+        ns = sv.SSet(lambda k, st=st, fn=fn: And(k != fn.e, st.dom(k)), None, st.kwrap)
+        ns.ksort = sv.StrS
+        path.heap_set(ex, WORLD, "$fexists", ns)
+        ex.note_write(path, WORLD, "$fexists", node)
+        return sv.NONE
+
+    def os_join(ex, path, args, kwargs, node):
+        a = ex.expect(args[0], sv.SStr, path, node)
+        b = ex.expect(args[1], sv.SStr, path, node)
+        r = JOIN(a.e, b.e)
+        path.assume(JOIN_INV(r) == b.e)
+        path.assume(JOIN_DIR(r) == a.e)
+        return sv.SStr(r)
+
+    def quantity(ex, path, args, kwargs, node):
+        mag = ex.expect(args[0], sv.SPay, path, node)
+        return sv.SPay(mag.e, args[1] if len(args) > 1 else None)
+
+    ex.ext_models["numpy.save"] = np_save
+    ex.ext_models["numpy.load"] = np_load
+    ex.ext_models["os.remove"] = os_remove
+    ex.ext_models["os.path.join"] = os_join
+    ex.ext_models["pint.application_registry.Quantity"] = quantity
+    ex.pure_ext |= {"np.load", "os.path.join", "tools.UNITS.Quantity"}
